@@ -40,6 +40,9 @@ func runC08(c *core.Ctx) {
 	c.Doc("C08.error-flow", "every decoder call inside the decoder set propagates its error to a non-nil error return", 180)
 	n := ruleErrorFlow(c, d, "C08.error-flow", nil)
 	c.Note("decoder set: %d functions, %d decoder call sites", len(d.member), n)
+	c.Doc("C08.roots", "functions outside the decoder set that decode (from a reader they build, or without an error result of their own) look at the error of every decoding step", 20)
+	nr := ruleDecoderRoots(c, d, "C08.roots")
+	c.Note("decoder roots: %d decoding steps outside the decoder set", nr)
 	c.Doc("C08.reader-discipline", "readers are only consumed through the repository's decoders", 60)
 	ruleReaderDiscipline(c, d, "C08.reader-discipline", nil)
 }
